@@ -250,9 +250,16 @@ func (b *ReadaheadBlob) Seek(offset int64, whence int) (int64, error) {
 		// read up to by the amount of prefetched data still in the buffer.
 		offset -= int64(b.bufBlob.Buffered())
 	}
+	// Seek the underlying blob first: a seek that fails (negative target,
+	// invalid whence, ByteLength error) must leave the stream where it was,
+	// including the prefetched data.
+	n, err := b.b.Seek(offset, whence)
+	if err != nil {
+		return n, err
+	}
 	// Discard the buffer.
 	b.bufBlob.Reset(b.b)
-	return b.b.Seek(offset, whence)
+	return n, nil
 }
 
 // ID returns the BlobID of 'b'.
